@@ -18,7 +18,7 @@ ASSUMPTIONS = ["SystemExit / GeneratorExit are outside the quantifier; KeyboardI
 RETS = [None, False, 0, -3, 300, True, "12", " 7 ", "abc", "", 2.7, 0.3, 0.0, "nan", "inf", [], [0], "OBJ", 255, 256, 1, -1, "0", "-0"]
 MSGS = ["boom", "two\nlines", "naïve é λ", "<error>open", "close</error>", "</b>", "<b>bold</b> and <c1>x</c1>", "a < b > c",
         "trailing backslash \\", "<fg=red>x</>"]
-EXCS = ["RuntimeError", "ValueError", "Lib", "KeyboardInterrupt", "CodeInt", "CodeNone", "CodeStr", "Chained"]
+EXCS = ["RuntimeError", "ValueError", "Lib", "KeyboardInterrupt", "CodeInt", "CodeNone", "CodeStr", "Chained", "TypeError", "AttributeError"]
 ORIGINS = ["file", "exec", "markupfile"]
 LISTENERS = [[], [[0]], [[1, 0, 0]], [[1, 5, 1]], [[2, "RuntimeError"]], [[0], [1, "abc", 0]], [[1, None, 0], [0]], [[2, "Lib"]],
              [[2, "KeyboardInterrupt"]]]
@@ -36,6 +36,14 @@ def gen(rng, tier, info):
                         if tier == "quick" and li not in (0, 1, 3) and (mi % 3 or o != "file"):
                             continue
                         cases.append({"verb": v, "ls": li, "out": ["raise", e, mi, o]})
+    # the same outcomes through a callback handler (CallbackHandler), for the first listener set-ups
+    extra = []
+    for cse in cases:
+        if cse["ls"] in (0, 1) and cse["verb"] in (0, 3) and (cse["out"][0] == "ret" or (cse["out"][3] == "file" and cse["out"][2] % 3 == 0)):
+            d = dict(cse)
+            d["hk"] = "callback"
+            extra.append(d)
+    cases.extend(extra)
     info["exhaustive"] = tier != "quick"
     info["distribution"] = {"returns": len(RETS), "exceptions": len(EXCS), "messages": len(MSGS), "origins": len(ORIGINS),
                             "listener_setups": len(LISTENERS), "cases": len(cases)}
@@ -85,7 +93,7 @@ def wire(c):
 def describe(c):
     o = c["out"]
     what = ("handler returns %r" % (RETS[o[1]],)) if o[0] == "ret" else ("handler raises %s(%r) from %s" % (o[1], MSGS[o[2]], o[3]))
-    return "%s; verbosity %s; pre-handle listeners %r" % (what, ["normal", "-v", "-vv", "-vvv"][c["verb"]], LISTENERS[c["ls"]])
+    return "%s%s; verbosity %s; pre-handle listeners %r" % (what, " (callback handler)" if c.get("hk") == "callback" else "", ["normal", "-v", "-vv", "-vvv"][c["verb"]], LISTENERS[c["ls"]])
 
 
 _TMP = {}
@@ -107,6 +115,10 @@ def _mk_exc(name, msg):
         return RuntimeError(msg)
     if name == "ValueError":
         return ValueError(msg)
+    if name == "TypeError":
+        return TypeError(msg)
+    if name == "AttributeError":
+        return AttributeError(msg)
     if name == "Lib":
         class LibError(CliKitException):
             pass
@@ -173,8 +185,15 @@ def run_impl(c):
     config = DefaultApplicationConfig("app", "1.0")
     config.set_terminate_after_run(False)
     config.set_catch_exceptions(True)
+    h = Handler()
+    if c.get("hk") == "callback":
+        # the handler is a plain callable (CallbackHandler); it tolerates a third parameter, as callbacks may
+        from clikit.handler.callback_handler import CallbackHandler
+        g_handler = CallbackHandler(lambda args, io, command=None: h.handle(args, io, command))
+    else:
+        g_handler = h
     with config.command("go") as g:
-        g.set_handler(Handler())
+        g.set_handler(g_handler)
     with config.command("other") as g2:
         g2.set_handler(type("H2", (), {"handle": lambda self, a, i, cmd: calls.append(2)})())
     prio = 100
